@@ -64,6 +64,7 @@ class Engine:
         self.trace = False
         self.var_names = {}
         self.current_top = None
+        self.lazy_locals = False      # slice mode: unbound outer variables get arbitrary values on first use
         self.name_locals = 0          # depth up to which scalar locals become named symbols with a defining equation
         self.def_eqs = {}             # id of defining equation -> (symbol, expression, local name)
         import models
@@ -489,6 +490,16 @@ class Engine:
                 return LocalLV(vid)
             if kind == 'BindingDecl':
                 raise Unsupported('binding %s not bound' % rd.get('name'))
+            if self.lazy_locals and kind in ('VarDecl', 'ParmVarDecl') and rd['id'] in self.ast.by_id and (self.ast.parent.get(rd['id']) or {}).get('kind') in FN_KINDS:
+                t = TY.parse(rd['type'].get('desugaredQualType') or rd['type']['qualType'])
+                bt = t.noref()
+                self.var_names[vid] = rd.get('name')
+                if self.is_value_type(bt):
+                    st.env[vid] = self.fresh_value(bt, 'any.' + rd.get('name', 'v'))
+                    return LocalLV(vid)
+                r = self.fresh('anyobj.' + rd.get('name', 'v'), I); st.pc.append(r > 0)
+                st.env[vid] = ObjLV(r, bt)
+                return st.env[vid]
             # global / static / constexpr variable
             return self.global_var(rd, st, fr, n)
         if kind == 'EnumConstantDecl':
@@ -765,6 +776,12 @@ class Engine:
             st.pc.append(z3.Implies(cond, e))
         for t_ in s2.throws:
             st.throws.append(t_)
+        if s2.ghost.get('epoch', 0) != st.ghost.get('epoch', 0):
+            for key in [k for k in self.base_arrays if '@' not in k]:
+                for s_ in (st, s2):
+                    if key not in s_.heap: s_.heap[key] = self.base_for(key, s_)
+            newep = next(self.nfresh) + 1
+            st.ghost['epoch'] = newep; s2.ghost['epoch'] = newep
         if s2.heap is not st.heap:
             for k, v in s2.heap.items():
                 o = st.heap.get(k)
@@ -785,8 +802,11 @@ class Engine:
                 st.env.pop(k, None)
         for k, v in s2.ghost.items():
             o = st.ghost.get(k)
+            if k == 'epoch' and o != v: raise Unsupported('a call with unknown effects inside a conditional expression')
             if o is not None and o is not v:
                 st.ghost[k] = merge_vals([cond, z3.BoolVal(True)], [v, o])
+            elif o is None and k != 'epoch':
+                st.ghost[k] = v
 
     def ev_CompoundAssignOperator(self, n, st, fr):
         op = n['opcode'][:-1]; a_n, b_n = n['inner']
